@@ -119,11 +119,14 @@ def run(idx, rep, tier):
             uses_mult = f"{a}.multiplicities" in txt
             # each block's diagonal is repeated by its multiplicity: `[d] * m`, or a nested comprehension `... for _ in range(m)`
             zips = [n for n in ast.walk(fi.node) if isinstance(n, ast.Call) and isinstance(n.func, ast.Name) and n.func.id == "zip" and any(nospace(x) == f"{a}.multiplicities" for x in n.args)]
-            mvars = {e.id for n in ast.walk(fi.node) if isinstance(n, ast.comprehension) and any(z is n.iter for z in zips) and isinstance(n.target, ast.Tuple)
+            mvars = {e.id for n in ast.walk(fi.node) if isinstance(n, ast.comprehension) and any(z is n.iter or (isinstance(n.iter, ast.Name) and df.resolve_value(fi.node, n.iter) is z) for z in zips) and isinstance(n.target, ast.Tuple)
                      for e in n.target.elts[-1:] if isinstance(e, ast.Name)}
             repl_list = any(isinstance(n, ast.BinOp) and isinstance(n.op, ast.Mult) and isinstance(n.left, ast.List) and (set(df.names_in(n.right)) & mvars) for n in ast.walk(fi.node))
             repl_loop = any(isinstance(n, ast.comprehension) and isinstance(n.iter, ast.Call) and nospace(n.iter.func) == "range" and n.iter.args and (set(df.names_in(n.iter.args[0])) & mvars)
                             for n in ast.walk(fi.node))
+            # itertools.repeat(d, m)
+            repl_list = repl_list or any(isinstance(c.func, (ast.Name, ast.Attribute)) and nospace(c.func).split(".")[-1] == "repeat" and len(c.args) == 2
+                                         and (set(df.names_in(c.args[1])) & mvars) for c in df.calls(fi.node))
             cat = any(df.is_xnp_call(c) in ("concat", "concatenate") for c in df.calls(fi.node))
             loads = {n.id for n in ast.walk(fi.node) if isinstance(n, ast.Name) and isinstance(n.ctx, ast.Load)}
             if not uses_mult or (mvars and not (mvars & loads)):
@@ -135,8 +138,15 @@ def run(idx, rep, tier):
                            f"multiplicities {'zipped' if zips else 'not zipped with the blocks'}, {'replicated' if (repl_list or repl_loop) else 'replication not recognised'}, "
                            f"{'concatenated' if cat else 'no concatenation found'}", locs=[rule.loc])
         if kind == "Sum":
-            ok = any(isinstance(c.func, ast.Name) and c.func.id == "sum" for c in df.calls(fi.node))
-            rep.decide(ok, "rule-algebra", construct, "sums the terms' diagonals" if ok else "does not sum the terms' diagonals", detail="" if ok else "sum", locs=[rule.loc])
+            # the returned vector as a scalar/vector term over the summands: diag(Σ Aᵢ) = Σ diag(Aᵢ)
+            from sa.scalar import VAR, ScalarEval, equal as sequal, has_opaque as shas_opaque, show as sshow, snorm
+            se = ScalarEval(idx)
+            for r in [r for r in df.returns(fi.node) if r.value is not None]:
+                t = snorm(se.eval_in(fi, r.value))
+                want = snorm(("fsum", ("vec", f"diag({sshow(VAR)})")))
+                v = sequal(t, want)
+                ok = True if v is True else (None if (v is None or shas_opaque(t)) else False)
+                rep.decide(ok, "rule-algebra", construct, f"returns {sshow(t)[:100]}; required {sshow(want)}", detail="" if ok else "sum", locs=[idx.loc(fi.module, r)])
         if kind == "ScalarMul":
             rets = df.returns(fi.node)
             ok = bool(rets) and isinstance(rets[0].value, ast.BinOp) and isinstance(rets[0].value.op, ast.Mult) and f"{a}.c" in nospace(rets[0].value)
